@@ -81,3 +81,19 @@ Definition pool_call (schedule : Z -> Z -> Q) (pool : list wstate) (owner : nat)
   | Some w => let '(w1, v) := sched_call schedule w in Some (set_nth owner w1 pool, (v, ws_inner w1))
   | None => None
   end.
+
+(* the pool in global sample order: owners = which worker gets the n-th sample *)
+Fixpoint pool_run (schedule : Z -> Z -> Q) (pool : list wstate) (owners : list nat) : list (Q * tree) :=
+  match owners with
+  | [] => []
+  | o :: r =>
+      match pool_call schedule pool o with
+      | Some (pool', ob) => ob :: pool_run schedule pool' r
+      | None => []
+      end
+  end.
+
+(* what DataLoader(num_workers=W, worker_init_fn=...) sets up: worker r gets rank r, every worker starts from a
+   copy of the same transform with sample_counter = 0 *)
+Definition init_pool (W : nat) (B : Z) (i : init_t) (inner : tree) : list wstate :=
+  map (fun r => worker_init (Z.of_nat r) (Z.of_nat W) B i inner) (seq 0 W).
